@@ -102,6 +102,14 @@ API_PATHS = [
     ("strarg.value_not_in", "DataPath('a', MapValue(value=Value.not_in('ab')))", [], "dm"),
     ("strarg.key_in", "DataPath(MapValue(key=Key.in_('abc')), 'b')", [], "dm"),
     ("strarg.empty", "DataPath('l', ListValue(value=Value.in_('')))", [], "dm"),
+    # the `null` callable is an ordinary leaf, not "no condition": with a length pre-processor it selects only sized items, as the
+    # generic condition of a map-or-list part a key- / index-kind null selects in one container kind only
+    ("nullcallable.length", "DataPath('l', ListValue(value=Value.length.null()))", [], "dm"),
+    ("nullcallable.length.map", "DataPath(MapValue(value=Value.length.null()), MapOrListValue(value=Value.length.null()))", [], "dm"),
+    ("nullcallable.mol.key", "DataPath(MapOrListValue(condition=Key.null()), MapOrListValue(condition=Key.null()))", [], "dm"),
+    ("nullcallable.mol.index", "DataPath(MapOrListValue(condition=Index.null()), MapOrListValue(condition=Index.null()))", [], "dl"),
+    ("nullcallable.value", "DataPath('l', ListValue(value=Value.null()))", [], "dm"),
+    ("nullcallable.key.tree", "DataPath(MapValue(key=Key.null() ^ Key.equal_to('a')))", [], "dm"),
     ("from_str", "DataPath.from_str('a/c/1')", [], "dm"),
     ("from_str.float", "DataPath.from_str('1.5/0')", [], "dk"),
     ("combined.deepcopy", "DataPath.from_part_specs('a', MapValue(key=Key.not_equal_to(k), value=Value.greater_than(t)))", [("k", "str"), ("t", "int")], "dm"),
